@@ -39,7 +39,13 @@ func (c *ConstantOfShape) Init(n *onnx.NodeProto) error {
 				return err
 			}
 
-			c.value = tensor.New(tensor.WithBacking(t.Data()))
+			// The data of a rank-0 tensor is a scalar, not a slice.
+			if t.IsScalar() {
+				c.value = tensor.New(tensor.FromScalar(t.Data()))
+			} else {
+				c.value = tensor.New(tensor.WithBacking(t.Data()))
+			}
+
 			if c.value.Len() != 1 {
 				return ops.ErrInvalidTensor("expected tensor to have one element", c)
 			}
